@@ -100,6 +100,22 @@ func (g *G) callFn(cl *Closure, args []Value, caller *Frame, pos token.Pos) Valu
 	}
 	fn := cl.Fn
 	if fn == nil {
+		switch cl.Name {
+		case "builtin:close":
+			g.chanClose(args[0].(*Chan))
+			return nil
+		case "builtin:delete":
+			if m := args[0].(*MapV); m != nil {
+				g.mapDelete(m, args[1])
+			}
+			return nil
+		case "builtin:panic":
+			panic(targetPanic{args[0]})
+		case "builtin:print", "builtin:println":
+			return nil
+		case "builtin:recover":
+			return g.doRecover(&Frame{caller: caller})
+		}
 		panic("callFn: closure without function: " + cl.Name)
 	}
 	r := g.run
@@ -124,7 +140,7 @@ func (g *G) callFn(cl *Closure, args []Value, caller *Frame, pos token.Pos) Valu
 		g.inconclusive("unmodelled external function " + fn.String())
 	}
 	inInit := caller != nil && caller.fn != nil && (caller.fn.Synthetic == "package initializer" || strings.HasPrefix(caller.fn.Name(), "init#")) && fnPkgPath(caller.fn) == pk
-	if isDeniedPkg(pk) && !inInit {
+	if isDeniedPkg(pk) && !inInit && !interpretAllow[fn.String()] {
 		g.inconclusive("unmodelled call into " + fn.String())
 	}
 	return g.callSSA(fn, args, cl.Env, caller, pos)
@@ -177,6 +193,9 @@ func isDeniedPkg(p string) bool {
 		"github.com/gorilla/websocket", "math/rand", "fmt", "net/url", "github.com/google/uuid", "net/http/httptest", "bufio",
 		"encoding/base64", "testing", "internal/reflectlite", "unicode", "golang.org/x/xerrors", "context", "bytes", "io/ioutil", "math", "strconv", "sort":
 		return true
+	}
+	if p == "internal/stringslite" || p == "internal/itoa" {
+		return false
 	}
 	return strings.HasPrefix(p, "internal/") || strings.HasPrefix(p, "runtime/") || strings.HasPrefix(p, "crypto/")
 }
